@@ -276,6 +276,8 @@ pub struct OpRec {
     /// result of is_closed() sampled by the actor right before invoking (get ops)
     pub closed_at_invoke: bool,
     pub fault_used: bool,
+    /// idle queue at the start of the step in which this op last left a lock region
+    pub last_lock_idle: Option<Vec<u32>>,
     /// Pending polls of the actor when the op was invoked / when it made its first call
     pub pend_base: u32,
     pub pend_first_call: Option<u32>,
@@ -483,6 +485,7 @@ impl MWorld {
             cancelled_by_controller: false,
             closed_at_invoke: false,
             fault_used: false,
+            last_lock_idle: None,
             pend_base: if actor == CONTROLLER { 0 } else { engine::pending_count(actor) },
             pend_first_call: None,
             wait_start_ms: None,
